@@ -9,11 +9,11 @@ open Knut.Generated.ProcOrder
 /-- `knut transcode` (`cmd/commands/transcode.go`): the four stages of `TransProcessAllTranscode.transcodeSys`:
 Sort, ComputePrices, check, Valuate. -/
 theorem transcodeOrder_eq : transcodeOrder =
-    ["journal.Sort", "journal.ComputePrices", "check.Check", "journal.Valuate"] := rfl
+    ["journal.Sort", "journal.ComputePrices", "check.Check", "journal.Valuate"] := by decide
 
 theorem transcodeCalls_eq : transcodeCalls =
     [("journal.Sort", []), ("journal.ComputePrices", ["valuation"]), ("check.Check", []),
-     ("journal.Valuate", ["reg", "valuation"])] := rfl
+     ("journal.Valuate", ["reg", "valuation"])] := by decide
 
 /-- the order of the seeded-style change "check before the prices are computed" in `transcode.go` is not the pinned one -/
 example : (["journal.Sort", "check.Check", "journal.ComputePrices", "journal.Valuate"] : List String)
